@@ -28,6 +28,38 @@ CHECKS = {
    technique="runtime monitoring: interposed __clear_cache log with call-time copies of the flushed range + byte diffs of watched code between observation points before/after every API call; offline checker (covered, and flushed after the last write)",
    text="For every API call of the sampled histories (installs, drops, unwinds) every byte that changed in a watched target range and every non-zero byte of a new trampoline page was inside a range passed to __clear_cache during that call, and the copy taken at the last covering flush already held the final value.",
    note="x86-64 keeps instruction caches coherent: decides 'flush requested for the right range at the right time' on the Linux code path, not stale execution"),
+ "C04": dict(engine="native", level="exploration", ref="DESIGN.md §5 C04",
+   technique="runtime monitoring under stress: 2-16 real threads looping over injector/preventer scopes with delays injected inside the library's own mprotect/munmap/__clear_cache calls; in-critical-section counter, owner cell, behavioural probes, plain-cell lost-update probe, bounded hand-over; thorough adds a ThreadSanitizer build and a Miri many-seeds run of the lock protocol",
+   text="Tens of thousands of contended acquisitions over 15 thread-count x delay configurations: no constructor ever returned while another holder was inside, every first call after acquiring was original, every holder saw only its own fake (or originals, for preventers), the lock-protected plain cell lost no update, and a fresh thread always got its turn. Schedules are sampled with stress and injected delays, not enumerated.",
+   note="sampled schedules; 30 s bounded-progress limit applies only while no guard object exists"),
+ "C05": dict(engine="native", level="fault_enumeration", ref="DESIGN.md §5 C05",
+   technique="runtime monitoring with crash-point and fault enumeration: every position of a scripted test body x every kind of library- or user-raised panic (incl. injected mmap/mprotect failures via interposers) x pending call-count expectations; catch_unwind on worker threads, panic-hook counting, byte images, M1 event log, fresh-thread probe, child exit status for aborts; memcheck slice in thorough",
+   text="The enumerated script space (7 positions x 13 panic kinds x 10 pending-expectation combinations) was executed for real: never an abort, at most one panic per script, the expected panic class, refusals before any memory was touched, all targets restored, no trampoline left, and a fresh thread could always create, use and drop an injector and a preventer afterwards.",
+   note="Rust-ABI fakes only; faults on the install path only"),
+ "C06": dict(engine="native", level="exploration", ref="DESIGN.md §5 C06",
+   technique="runtime monitoring: per-call outcome log + counter readings (public CallCountVerifier::WithCount) + scope-exit outcome against arithmetic oracle, calls released together on up to 16 threads by a spin barrier, overlap of call windows recorded as evidence of concurrency",
+   text="For every (arm, N, k, threads) trial the number of admitted matching calls was min(k,N), the rest panicked 'called more times', non-matching calls panicked and were not counted, the counter equalled k, and scope exit panicked iff k != N naming both numbers; most multi-thread trials had overlapping call windows.",
+   note="the harness zeroes the counter before install (independence from C07)"),
+ "C07": dict(engine="native", level="exploration", ref="DESIGN.md §5 C07",
+   technique="runtime monitoring: sequences of consecutive injector lifetimes through one shared set-up helper (one fake!(times) call site), outcomes compared with a reference model that depends on (N, c_i) only; exhaustive for short sequences",
+   text="All sequences of up to 3 (quick) / 4 (thorough) lifetimes over N<=2 and c<=N+2, plus random longer ones with caught panics and thread changes, gave in every lifetime exactly the verdict the reference model computes from that lifetime's own calls.",
+   note="simultaneously live installs of one call site are not judged"),
+ "C09": dict(engine="native", level="exploration", ref="DESIGN.md §5 C09",
+   technique="runtime monitoring: every ordered pair of a 24-member family of function-pointer types (each differing from the base in one respect) through every type-carrying macro form, under catch_unwind, with the M1 event log and byte images proving 'before anything is modified'",
+   text="All 6772 (target type, replacement type, macro forms) combinations, null pointers, typed/unchecked mixes and async output-type pairs: accepted iff structurally identical by construction; every refusal was a signature-mismatch / null-pointer panic raised before any library mprotect, flush or executable mmap, with the target bytes unchanged.",
+   note="exhaustive over the fixed family, which samples the space of Rust function types; lifetime-only pairs reported, not judged"),
+ "C10": dict(engine="native", level="exploration", ref="DESIGN.md §5 C10",
+   technique="runtime monitoring: acceptance gate over 25 real function types incl. textual traps; assembly register-file probe (M5) around forced-boolean synthetic targets near/far/low with random register files; Rust-level bool functions with 0-8 arguments",
+   text="Every bool-returning type was accepted and every non-bool type (incl. `fn() -> fn() -> bool`) refused before anything was touched; over tens of thousands of probed calls al equalled the requested value and rbx, rbp, r12-r15, rsp, DF, canaries and outgoing stack arguments were unchanged.",
+   note="x86-64 stub; ARM/AArch64 stubs in the sim engine"),
+ "C13": dict(engine="native", level="exploration", ref="DESIGN.md §5 C13",
+   technique="runtime monitoring: hand-written assembly caller and assembly fake record the complete register file and stack on both sides of the redirected call (short and long trampoline form); Rust-level many-argument / large-return shapes near and far",
+   text="Over tens of thousands (quick) to millions (thorough) of random register files per placement every argument register, vector register, stack argument, rsp, return address and callee-saved register seen at the fake's first instruction equalled what the caller loaded, and return registers / callee-saved set / rsp / canaries were intact after return, for both trampoline forms.",
+   note="x86-64 System V; rax, r10, r11 at entry are scratch by the ABI"),
+ "C14": dict(engine="native", level="exploration", ref="DESIGN.md §5 C14",
+   technique="runtime monitoring: hand-written poll-counting executor (first-poll readiness is observed, not inferred), side-effect counters in original bodies, counter-drawing value expressions for freshness, reference model over seeded fake/await/re-fake/drop histories, 4 executor threads",
+   text="In thousands of histories over 10 async function shapes every faked await was Ready on its first poll with a freshly evaluated value and without running the body; every un-faked function (incl. same-output siblings) behaved originally with its original poll count; all were original again after the drop.",
+   note="x86-64 Linux"),
 }
 NOT_YET = {}
 
